@@ -21,6 +21,7 @@ TRUSTED = ["SeqCst semantics of std atomics", "crossbeam channel FIFO"]
 Q = "proxy::blocking::TaskBlockingQueue"
 
 MUTANTS = [
+    {"name": "release-stops-on-send-error", "file": "src/proxy/blocking.rs", "old": "                error!(\n                    \"failed to send task when releasing blocking queue: {:?}\",\n                    err\n                );\n", "new": "                error!(\n                    \"failed to send task when releasing blocking queue: {:?}\",\n                    err\n                );\n                return;\n", "expect": "C11.D6:drains-until-empty"},
     {"name": "state-read-before-counter", "file": "src/proxy/blocking.rs", "old": "        let counter = RefAutoCounter::new(&self.running_cmd);\n        let BlockingState { blocking, term } = self.get_blocking_state();", "new": "        let BlockingState { blocking, term } = self.get_blocking_state();\n        let counter = RefAutoCounter::new(&self.running_cmd);", "expect": "C11.D1:counter-before-state"},
     {"name": "no-recheck-after-enqueue", "file": "src/proxy/blocking.rs", "old": "        let BlockingState { blocking, .. } = self.get_blocking_state();\n        if !blocking {\n            self.blocking_handle_inner.release_all();\n        }\n        Ok(())", "new": "        Ok(())", "expect": "C11.D1"},
     {"name": "relaxed-counter", "file": "src/proxy/blocking.rs", "after": "impl AutoCounter {", "old": "        counter.fetch_add(1, Ordering::SeqCst);\n        Self(counter)", "new": "        counter.fetch_add(1, Ordering::Relaxed);\n        Self(counter)", "expect": "C11.D3"},
@@ -35,6 +36,7 @@ def run(ctx):
     ctx.rule("C11.D1", "sender side: counter before state read; handed to CounterTask before release; re-check + release after enqueue; counter changed only by RAII pairs")
     ctx.rule("C11.D2", "writer side: start_blocking before polling; PreSwitch only after blocking_done; drop releases iff previous count == 1; blocking_done = (counter == 0)")
     ctx.rule("C11.D3", "all atomic operations of the barrier use SeqCst")
+    ctx.rule("C11.D6", "release_all hands every queued command back: it loops until try_recv fails and re-sends each received task before the next receive")
     ctx.rule("C11.D5", "one barrier per backend: a queue handed out by BlockingMap::get_or_create is always the one registered in the map (a newly created queue replaces the stale entry unconditionally); the packed (count, term) word is updated by a compare-exchange loop that recomputes the new value from the value it read in the same iteration")
     ctx.rule("C11.D4", "hint decision table: state x hint x term ordering", exhaustive=True)
     _send(ctx)
@@ -42,6 +44,7 @@ def run(ctx):
     _writer(ctx)
     _orderings(ctx)
     _registry(ctx)
+    _release_all(ctx)
     _cas_loops(ctx)
 
 
@@ -369,3 +372,43 @@ def _cas_loops(ctx):
             ctx.check(fresh, "C11.D5", "cas-new-value-recomputed:%s" % b.path.split("::{")[0], site(b, bb), ok="the new value is recomputed in every iteration from a value read in that iteration",
                       bad="the value installed by compare_exchange is not recomputed inside the retry loop from a fresh read: after a lost race the stale new value overwrites the concurrent update (one start_blocking / release is lost)")
     ctx.floor("C11.D5", "compare-exchange retry loops in the barrier code", n, 1)
+
+
+def _release_all(ctx):
+    """`loses nothing`: the commands parked in the blocking queue are all re-dispatched when blocking ends"""
+    from .C02 import loop_can_skip
+    F = ctx.F
+    b = F.one("BlockingHandleInner::release_all")
+    if b is None:
+        ctx.lost("C11.D6", "release_all", "BlockingHandleInner::release_all not found")
+        return
+    ctx.analysed(b)
+    du = DefUse(b)
+    recv = [(bb, t) for bb, t in b.calls() if (callee_of(t) or "").rsplit("::", 1)[-1] in ("try_recv", "recv", "try_iter", "recv_timeout", "try_next")]
+    sends = [(bb, t) for bb, t in b.calls() if (callee_decl(t) or callee_of(t) or "").rsplit("::", 1)[-1] == "send" and not (callee_of(t) or "").startswith("crossbeam")]
+    loops = cfg.natural_loops(b)
+    if not (ctx.floor("C11.D6", "receive from the blocking queue", len(recv), 1) and ctx.floor("C11.D6", "re-send of a released task", len(sends), 1) and ctx.floor("C11.D6", "drain loop", len(loops), 1)):
+        return
+    # the re-sent task is the received one
+    ctx.check(any(du.slice_operand(t["args"][1]).has_call((callee_of(recv[0][1]) or "").rsplit("::", 1)[-1]) for bb, t in sends if len(t["args"]) > 1), "C11.D6", "resends-the-received-task", site(b, sends[0][0]),
+              ok="the task taken from the queue is the one handed to the sender", bad="the re-sent task does not come from the queue")
+    sk = loop_can_skip(b, [bb for bb, _ in sends])
+    ctx.check(not sk, "C11.D6", "every-received-task-resent", site(b, sk[0][0]) if sk else site(b), ok="no iteration receives a task without re-sending it", bad="an iteration of the drain loop can take a task from the queue and go on without re-sending it: that command is lost (its client gets no reply)")
+    # the loop ends only when the receive fails
+    lb = set()
+    for t_, h in loops:
+        lb |= cfg.loop_blocks(b, t_, h)
+    exits = [(x, y) for x in lb for y in b.succs()[x] if y not in lb and b.blocks[y].term["k"] != "unreachable"]
+    dom = cfg.dominators(b)
+    from ..lib import branch_conditions
+    bad = []
+    for x, y in exits:
+        okx = False
+        for d, discr, val in branch_conditions(b, y, dom) + branch_conditions(b, x, dom):
+            pl = discr.get("mv") or discr.get("cp")
+            for df in du.defs.get(pl["l"], []) if pl else []:
+                if df[0] == "assign" and df[3]["rv"]["k"] == "discr" and b.locals[df[3]["rv"]["p"]["l"]]["ty"].startswith("std::result::Result<") and val == 1 and du.slice_operand({"cp": df[3]["rv"]["p"]}).has_call((callee_of(recv[0][1]) or "").rsplit("::", 1)[-1]):
+                    okx = True
+        if not okx:
+            bad.append((x, y))
+    ctx.check(not bad, "C11.D6", "drains-until-empty", site(b, bad[0][0]) if bad else site(b), ok="the drain loop ends only on a failed receive (queue empty)", bad="the drain loop can end although the queue still has commands (exit edge bb%s->bb%s is not on the receive-failed branch): they stay parked for ever" % (bad[0] if bad else ("", "")))
